@@ -31,6 +31,26 @@ CHECKS = {
    text="Exhaustive grids: timestamp x duration boundary pools for + - and the three laws with i128 nanosecond range arithmetic; 10 calendar accessors at month/year boundaries of 21 boundary years, zone-less vs 'UTC'; ALL 597 IANA zone names x fixed instants and UTC-offset transition instants +-1 s against the harness's own civil-from-days algorithm (offsets from chrono-tz); invalid zone names; duration accessors; uomConvert identity/inverse/transitivity/table agreement over all in-category unit pairs and every alias, cross-category and unknown units must fail; plus ~240k proptest-generated random cases. Both build profiles. Exploration.",
    note="Trusted: chrono-tz UTC offsets per instant (offsets only), the harness's table of exact unit definitions (rel 5e-7), Hinnant's civil-from-days algorithm.",
    technique="exhaustive boundary/zone/unit grids + proptest random instants vs independent calendar algorithm and i128 range model; algebraic laws (inverse, transitivity) as metamorphic relations"),
+ "C08": dict(
+   text="Exhaustive grid: field paths of depth 0..4 in every mix of .f / ['f'] steps x binding configurations (root unbound, key missing at each level, leaf null, leaf present, intermediate not a map) wrapped in has()/coalesce() and placed at top level, in macro bodies, ?: arms, call arguments and list elements; all coalesce argument lists of length 0..3 over 14 argument kinds (present, null, absent variable/field/key, division by zero, bad index, type error, recording functions); has() over each kind; plus 20k/500k proptest-generated nested has/coalesce lists. Oracle: reference model with an Absent failure class and the ordered log of recorded calls. Exploration.",
+   note="Trusted: model.rs; .f on a non-map value and absent fields named like built-ins are not asserted.",
+   technique="exhaustive path x binding-configuration grid and argument-list enumeration + proptest random lists vs reference model; argument evaluation observed through recording functions"),
+ "C13": dict(
+   text="Round-trip search: exhaustive grids (int/uint pools and every hex digit in every spelling; ~150 value-preserving spellings of each boundary double; every byte 0..255 and every code point 0..255 plus all code-point class boundaries in every escape form, both quote styles, raw/f prefixes; \\u sweep over the BMP and \\U sweep over all planes; a rejection grid of out-of-range integers, bad code points, truncated escapes, unterminated literals) plus 40k/2M proptest-generated literals; the generated VALUE is the oracle (bit-exact), rejections must be CelError::Syntax. Exploration.",
+   note="Trusted: Rust's shortest round-trip float printing; unknown escapes, string octal 400-777 and the spelling -9223372036854775808 are not asserted.",
+   technique="generate value -> render literal in random spelling -> evaluate -> compare (round-trip oracle); enumerated rejection set"),
+ "C18": dict(
+   text="Generated full-language sources rendered with random whitespace (tabs, newlines) and multi-byte characters (20k/1M), exhaustive single-token and operator-layout grids, and ~335k corrupted/truncated variants: every AST node's span is converted to byte offsets by an independent line/char count and checked (inside source, containment, sibling disjointness/order, no surrounding whitespace, root = trimmed source, re-compiling the spanned text yields a Shape-equal subtree); tokens strictly increasing and re-lexing to themselves; syntax errors locate inside the source. Exploration.",
+   note="Trusted: astn.rs Shape normalisation; match pattern nodes are not checked (the property excludes them); NotList/NegList and postfix pieces only 'inside the source'.",
+   technique="proptest-generated sources with random layout; span -> substring -> re-compile round trip against the node's normalised shape; token re-lex round trip; corruption fuzzing for error locations"),
+ "C19": dict(
+   text="A constant/construct grid (every boundary-pool constant of every type, 41 error-producing constants, ~150 one-per-construct programs, each alone and nested in lists/maps/?:/macros) and 60k/1.5M proptest-generated programs (constant-only, constant-rich, full language) x {serde_json, bincode} x 3-5 bindings: serialize, deserialize, equal source/params, structurally equal canonical bytecode, same value or error variant on execution, idempotent re-serialization. The run records which CelValue and ByteCode variants occurred (all 15 + 29). Exploration.",
+   note="Trusted: serde_json/bincode themselves; sub-millisecond time constants are outside the property's domain; error messages not compared.",
+   technique="proptest-generated constant-rich programs, serialize/deserialize round trip with behavioural (differential execution) and structural comparison; variant-coverage measurement"),
+ "C20": dict(
+   text="Exhaustive grids (14 operators x operand forms, all 196 operator pairs in both groupings, unary runs, 9 constructors x arity x argument forms, 36 string-alphabet symbols x 3 spellings x 10 positions incl. map keys and index keys, call shapes alone/chained/call-on-call, untranslatable constructs in 18 slots) plus 30k/1.2M proptest-generated expressions over the translatable subset; the emitted SQL is re-parsed by an independent tokenizer/parser with standard SQL lexical rules (sqlp.rs) and must yield the same Shape as the CEL AST under the fixed renaming, consume the whole output as one statement without comments, and carry the same multiset of string-literal contents. Exploration.",
+   note="Trusted: sqlp.rs as the reading of the emitted dialect (most lenient postfix/prefix precedence, so anything flagged is wrong under every reading); numeric literal types compared by value.",
+   technique="proptest-generated expressions; translate -> independent SQL re-parse -> compare operator trees (translation validation by round trip); string-literal multiset invariant against injection"),
  "C09": dict(
    text="Metamorphic search: proptest-generated full-language expressions over an environment of bound/unbound variables; every variable subset (all subsets up to 4 variables, sampled beyond) is replaced by literals of the bound values and literals are hoisted into fresh variables; all forms must evaluate to the same canonical value or the same error variant (compiler's evaluator vs VM). A seed grid enumerates the constructs the statement names x one operand of every type. Clock reads are checked by compiling, sleeping 30 ms and requiring the result not to predate execution. Exploration.",
    note="Trusted: rendering of values as literals (checked independently by C13); error messages are not compared; built-ins are not rebound.",
